@@ -243,6 +243,44 @@ def _stamp_source(func, value, stamp, want, defs):
     return False
 
 
+def _load_everything(ctx, loader):
+    """The restarted master rebuilds the whole model: every stored server,
+    bucket and scheduled instance is loaded - the listing of the node is
+    iterated unfiltered and every iteration reaches the per-item loader."""
+    for lname, item, root in (('load_servers', 'load_server', 'z.SERVERS'),
+                              ('load_buckets', 'load_bucket', 'z.BUCKETS'),
+                              ('load_apps', 'load_app', 'z.SCHEDULED')):
+        func = loader.methods.get(lname)
+        ctx.require(func is not None, 'Loader.%s' % lname)
+        graph = ctx.cfg(func)
+        calls = [n for n, c in K.nodes_calling(
+            graph, lambda c, it=item: K.is_meth(c, it) and
+            K.recv_text(c) == 'self' and c.args)]
+        ok = False
+        detail = 'no loop calling self.%s' % item
+        for node in calls:
+            loop = K.enclosing_for(graph, node)
+            if loop is None:
+                continue
+            dom = K.rexpr(func, loop.ast.iter)
+            listing = isinstance(dom, ast.Call) and \
+                K.is_meth(dom, 'list') and dom.args and \
+                N.txt(dom.args[0]) == root
+            var = N.txt(loop.ast.target)
+            call = [c for c in C.node_calls(node) if K.is_meth(c, item)][0]
+            skip = K.find_path(
+                loop, [loop], cut_node=lambda n, nd=node: n is nd,
+                cut_edge=lambda e, lp=loop: e.src is lp and
+                e.kind == 'done', follow_exc=False)
+            ok = listing and N.txt(call.args[0]) == var and skip is None
+            detail = 'domain %s, skip path %s' % (
+                N.txt(dom), K.describe(skip) if skip else None)
+        ctx.ob('C11.1', func, calls[0] if calls else None, ok,
+               '%s loads every entry of %s (unfiltered listing, no '
+               'iteration skips the load): %s' % (lname, root, detail),
+               construct='%s loads the whole listing' % lname)
+
+
 def forced_identity(ctx):
     """The forcing routine takes the recorded identity whenever one was
     recorded (identity 0 included): no condition besides `is not None` and
@@ -387,6 +425,7 @@ def check(ctx):
     loader = ctx.index.get_class(K.LOADER, 'Loader')
     master = ctx.index.get_class(K.MASTER, 'Master')
     _load_order(ctx, loader)
+    _load_everything(ctx, loader)
     func, graph, facts, _loop = _verbatim(ctx, loader)
     _keys_and_identity(ctx, loader, master, func, graph, facts)
     _nothing_else(ctx, loader, func)
